@@ -75,9 +75,14 @@ def run(rep, tier, seed):
         if tier == 'thorough' and i % 25 == 0:
             n = rnd.randint(0, 65535)
         v = randbits(rnd, n)
-        kind = rnd.choice(['vs', 'lsb'])
+        kind = rnd.choice(['vs', 'lsb', 'vs-with-target'])
         if kind == 'vs':
             fd = RuleFieldDescriptor('X:v', 0, 0, DI.BIDIRECTIONAL, Buffer(b'', 0), MO.IGNORE, CDA.VALUE_SENT)
+        elif kind == 'vs-with-target':
+            # value-sent of variable length under a descriptor that carries a target value (equal / MSB): the announced size is the
+            # size of the RESIDUE, i.e. of the whole field
+            mo_ = rnd.choice([MO.EQUAL, MO.MSB])
+            fd = RuleFieldDescriptor('X:v', 0, 0, DI.BIDIRECTIONAL, mk(v if mo_ == MO.EQUAL else v[:rnd.choice([0, 1, n // 2, n])], rnd.choice([L, R])), mo_, CDA.VALUE_SENT)
         else:
             x = rnd.choice([0, 1, n // 2, n, max(0, n - 1), max(0, n - 15)])
             fd = RuleFieldDescriptor('X:v', 0, 0, DI.BIDIRECTIONAL, mk(v[:x], rnd.choice([L, R])), MO.MSB, CDA.LSB)
